@@ -154,6 +154,8 @@ def parse_operand(s):
 
 def parse_rvalue(s):
     s = s.strip()
+    if s.startswith("no_retag "):
+        s = s[9:]
     if s.startswith(("copy ", "move ", "const ")):
         # possibly a cast: "<operand> as T (Kind)"
         m = re.fullmatch(r"(.*) as (.*) \((\w+(?:\([^)]*\))?)\)", s, re.S)
@@ -196,6 +198,15 @@ def parse_rvalue(s):
             return ("tuple", [])
         items = split_top(inner)
         return ("tuple", [parse_operand(x) for x in items])
+    if s.startswith("{closure@") or s.startswith("{coroutine@"):
+        j = match_paren(s, 0)
+        head, rest = s[:j + 1], s[j + 1:].strip()
+        fields = []
+        if rest.startswith("{") and rest.endswith("}"):
+            for item in split_top(rest[1:-1]):
+                k, v = item.split(":", 1)
+                fields.append((k.strip(), parse_operand(v)))
+        return ("adt_named", head, fields)
     # aggregates:  Path { f: op, .. }   |   Path(op, ..)   |   Path   |  {closure@..}
     m = re.match(r"(.*?)\s*\{(.*)\}$", s, re.S)
     if m and not s.startswith("{") and match_paren(s, s.index("{", len(m.group(1)))) == len(s) - 1:
